@@ -27,6 +27,7 @@ type Shared struct {
 	mutableGlobal map[*ssa.Global]bool
 	mapValsNonNil map[string]bool
 	pureFuncField map[string]bool
+	fieldOfClosure map[*ssa.Function]string // closure stored into a function-typed struct field -> "pkg.field:Type.field"
 	repoKeys      map[string]bool // heap keys read or written by repo code (syntactically)
 }
 
@@ -43,7 +44,7 @@ type guardInfo struct {
 
 func newShared(ld *Loaded, cs *ContractSet) *Shared {
 	sh := &Shared{ld: ld, addrTaken: map[string]bool{}, fileOf: map[*token.File]*ast.File{}, importNames: map[string]map[string]*types.Package{},
-		mayLockMemo: map[*ssa.Function]bool{}, nonNilField: map[string]bool{}, elemsNonNil: map[string]bool{}, guards: map[string]*guardInfo{}, mapValsNonNil: map[string]bool{}, pureFuncField: map[string]bool{}, repoKeys: map[string]bool{}}
+		mayLockMemo: map[*ssa.Function]bool{}, nonNilField: map[string]bool{}, elemsNonNil: map[string]bool{}, guards: map[string]*guardInfo{}, mapValsNonNil: map[string]bool{}, pureFuncField: map[string]bool{}, fieldOfClosure: map[*ssa.Function]string{}, repoKeys: map[string]bool{}}
 	seenT := map[*types.Package]bool{}
 	packages.Visit(ld.Pkgs, nil, func(p *packages.Package) {
 		if p.Types != nil && !seenT[p.Types] {
